@@ -244,7 +244,17 @@ def main():
                 env = ICG_Gym(ig, counting, minimal_game_coalitions(ig), gapf, done_after_n_actions=None)
                 p = rng.choice(procs)
                 tid += 1
-                t = base(tid, n, a.what, comp, r, gap, minimal, scale)
+                k0 = list(minimal)
+                if a.what == "best" and i % 3 == 0:
+                    # best-states asked of an environment in which something was already revealed: its starting knowledge is then the
+                    # minimal information plus those coalitions (seed C11-e: block sizes computed from the explorable count)
+                    for _ in range(rng.randint(1, 2)):
+                        valid = [j for j, m_ in enumerate(env.action_masks()) if m_]
+                        if valid:
+                            j = rng.choice(valid)
+                            env.step(j)
+                            k0.append(int(env.explorable_coalitions[j].id))
+                t = base(tid, n, a.what, comp, r, gap, k0, scale)
                 t.update({"max_steps": max_steps, "p": p, "inclass": int(cls != "ANY"), "exh_upto": 2 if n >= 4 else 3})
                 drawn_before = len(counting.games)
                 try:
